@@ -145,7 +145,7 @@ pub fn check_case(c: &Case) -> CheckResult {
     for (i, (s, m)) in cells.iter().enumerate() {
         let uuid = cell_uuid(i);
         ops.push(Operation::Create { uuid });
-        let mut set = |k: &str, v: String, ops: &mut Vec<Operation>| {
+        let set = |k: &str, v: String, ops: &mut Vec<Operation>| {
             ops.push(Operation::Update {
                 uuid,
                 property: k.to_string(),
